@@ -5,6 +5,7 @@ package main
 import (
 	"fmt"
 	"math/big"
+	"sort"
 	"strings"
 )
 
@@ -75,6 +76,10 @@ func init() {
 			e.emit("valid %s nil", hs(append(append([]byte("[0."), v...), ']')))
 			e.emit("valid %s nil", hs(append(append([]byte("1e"), v[:min(len(v), 12)]...), ' ')))
 		})
+		aroundValues(func(d []byte) {
+			e.emit("valid %s nil", hs(d))
+			e.emit("valid %s -", hs(d))
+		})
 		nearClassRuns("strchars", func(v []byte) {
 			e.emit("valid %s nil", hs(append(append([]byte{'"'}, v...), '"')))
 			e.emit("valid %s nil", hs(append(append([]byte(`{"`), v...), []byte(`":1}`)...)))
@@ -125,6 +130,10 @@ func init() {
 			e.emit("skip %s nil", hs(v))
 			e.emit("skip %s nil", hs(append([]byte("-0."), v...)))
 		})
+		aroundValues(func(d []byte) {
+			e.emit("skip %s nil", hs(d))
+			e.emit("skip %s 7,7", hs(d))
+		})
 		nearClassRuns("strchars", func(v []byte) {
 			e.emit("skip %s nil", hs(append(append([]byte{'"'}, v...), []byte(`" x`)...)))
 			e.emit("skip %s nil", hs(append(append([]byte(`["`), v...), []byte(`"]`)...)))
@@ -165,6 +174,7 @@ func init() {
 	// C11: fast agrees with strict on well-formed values
 	suites["c11"] = func(e *emitter, r *rng, thorough bool) {
 		usedBufferHistories(e, []string{"skipfast"}, false)
+		aroundValues(func(d []byte) { e.emit("skipfast %s nil", hs(d)) })
 		nearClassRuns("strchars", func(v []byte) {
 			e.emit("skipfast %s nil", hs(append(append([]byte(`["`), v...), []byte(`"]`)...)))
 			e.emit("skipfast %s nil", hs(append(append([]byte(`{"k":"`), v...), []byte(`"} `)...)))
@@ -343,14 +353,19 @@ func init() {
 	c09lib := suites["c09"]
 	suites["c09"] = func(e *emitter, r *rng, thorough bool) {
 		c09lib(e, r, thorough)
-		docsA := []string{`[1,[2,3],"s",{"k":4},null]`, `[[1],"x"]`, `["s"]`, `[true, {"a":`, `[1,[2,`, `[[`}
-		docsO := []string{`{"a":1,"b":[2,3],"c":"s","d":{"k":4},"e":null}`, `{"a":[1],"b":"x"}`, `{"a":"xyz`, `{"a":{"b":`, `{"a":[`}
+		docsA := []string{`[1,[2,3],"s",{"k":4},null]`, `[[1],"x"]`, `["s"]`, `[true, {"a":`, `[1,[2,`, `[[`,
+			`[1, tru]`, `[1, 2x]`, `[-]`, `[0, 1.]`, `[1, 2`, `[nul`, `[null,nulx]`, `[false,1e]`, `[0, "abc`, `[1,-`}
+		docsO := []string{`{"a":1,"b":[2,3],"c":"s","d":{"k":4},"e":null}`, `{"a":[1],"b":"x"}`, `{"a":"xyz`, `{"a":{"b":`, `{"a":[`,
+			`{"a":1,"b":tru}`, `{"a":2x}`, `{"a":-}`, `{"a":0,"b":1.}`, `{"a":1,"b":2`, `{"a":nul`, `{"a":null,"b":nulx}`, `{"a":1,"b":null,"c":3}`}
 		for k := 0; k < 26; k++ {
 			for _, d := range docsA {
 				for pos := 0; pos < 4; pos++ {
 					for _, off := range []string{"0", "1", "3", fmt.Sprint(len(d)), "100"} {
 						sc := strings.Repeat("x,", pos) + "e" + off + "@" + fmt.Sprint(k)
 						e.emit("harr %s %s %s", hs([]byte(d)), sc, r.pick([]string{"nobuf", "nil", "-", "7,7"}))
+						if k == 0 {
+							e.emit("harr %s %s nobuf", hs([]byte(d)), strings.Repeat("0,", pos)+"e"+off)
+						}
 					}
 				}
 			}
@@ -359,6 +374,9 @@ func init() {
 					for _, off := range []string{"0", "1", "3", fmt.Sprint(len(d)), "100"} {
 						sc := strings.Repeat("x,", pos) + "e" + off + "@" + fmt.Sprint(k)
 						e.emit("hobj %s %s %s", hs([]byte(d)), sc, r.pick([]string{"nobuf", "nil", "-", "7,7"}))
+						if k == 0 {
+							e.emit("hobj %s %s nobuf", hs([]byte(d)), strings.Repeat("0,", pos)+"e"+off)
+						}
 					}
 				}
 			}
@@ -650,6 +668,38 @@ func init() {
 			e.emit("dec str %s %s %s", hs(d), hs([]byte("prev")), r.pick([]string{"nil", "-", hs([]byte("zz"))}))
 		}
 	}
+	// (C11 continued) the statement itself: both skippers on every input of the suite, plus exponent /
+	// escape shapes on which a change to EITHER skipper would make them part ways
+	c11base := suites["c11"]
+	suites["c11"] = func(e *emitter, r *rng, thorough bool) {
+		c11base(e, r, thorough)
+		var lines []string
+		for l := range e.seen {
+			if strings.HasPrefix(l, "skipfast ") {
+				lines = append(lines, l)
+			}
+		}
+		sort.Strings(lines)
+		for _, l := range lines {
+			e.emit("skipboth %s", strings.Fields(l)[1])
+		}
+		for _, num := range []string{"1e5", "1e5-3", "1.5e3-2", "2E10-1e5", "7e0+", "1e-5-3", "1e5 -3", "15-3", "1e+5+1", "0e0", "-0.0e-0-0", "1E5", "12.5e3", "-10.0E-2"} {
+			for _, tmpl := range []string{"%s", " \t%s", "[%s]", "[1,%s,2]", `{"a":%s}`, "%s,", "%s]"} {
+				d := hs([]byte(fmt.Sprintf(tmpl, num)))
+				e.emit("skipboth %s", d)
+				e.emit("skipfast %s nil", d)
+			}
+		}
+		for _, esc := range []string{`\n`, `\"`, `\\`, `\/`, `\u0041`, `\ud83d\ude00`, `\u00e9`} {
+			for _, nb := range []byte{0x7f, 0x80, 0x1f, 0x20, 0x00, 0x22, 0x5c, 0xff, 'u', '0', 'x'} {
+				for _, tmpl := range []string{`"%s"`, `["%s"]`, `{"k":"%s"}`, `{"%s":1}`, `[{"a":["%s"]}]`, `{"a":{"b":"%s"}}`} {
+					d := hs([]byte(fmt.Sprintf(tmpl, esc+string([]byte{nb})+"z")))
+					e.emit("skipboth %s", d)
+					e.emit("skipfast %s nil", d)
+				}
+			}
+		}
+	}
 	// C13: token classification, literal readers, type exclusivity
 	suites["c13"] = func(e *emitter, r *rng, thorough bool) {
 		// type exclusivity on a reused reader: after a failing call, null is still refused by
@@ -696,6 +746,15 @@ func init() {
 					}
 				}
 			}
+		})
+		aroundValues(func(d []byte) {
+			h := hs(d)
+			for _, op := range fops([]string{"ntok", "ntt", "rnull", "rbool", "u64", "i64", "f64"}) {
+				e.emit("%s %s", op, h)
+			}
+			e.emit("rsb %s - 0", h)
+			e.emit("ra %s", h)
+			e.emit("ro %s", h)
 		})
 		wss := []string{"", " ", "\t", "\r", "\n", "  ", " \t", "\r\n", "\n\n\n", " \t\r"}
 		for _, ws := range wss {
